@@ -193,11 +193,17 @@ def exec_py(code_text: str, stack: list, ctx: Context, budget: int = 2_000_000,
     """exec() transpiled text the way main.execute_vyxal does: ONE namespace."""
     res = Result()
     res.stack, res.ctx, res.code = stack, ctx, code_text
-    if ns is None:
-        ns = dict(MAIN_VARS)
+    # One shared namespace per process (copying the ~1500-entry dict of vyxal.main for every
+    # case costs an mmap/munmap pair each time); it is restored after the run and the names
+    # the program created are handed back in res.ns.
+    shared = _shared_ns()
+    if ns:
+        for k, v in ns.items():
+            if k not in MAIN_VARS:
+                shared[k] = v
+    ns = shared
     ns["stack"] = stack
     ns["ctx"] = ctx
-    res.ns = ns
     buf = io.StringIO()
     compiled = _code_cache.get(code_text)
     if compiled is None:
@@ -223,7 +229,26 @@ def exec_py(code_text: str, stack: list, ctx: Context, budget: int = 2_000_000,
         res.exc = e
     res.fuel = fuel_used()
     res.out = buf.getvalue()
+    extra = {k: ns[k] for k in ns.keys() - _MAIN_KEYS}
+    for k in extra:
+        del ns[k]
+    for k, v in MAIN_VARS.items():
+        if ns.get(k, _MISSING) is not v:
+            ns[k] = v
+    res.ns = extra
     return res
+
+
+_SHARED_NS = None
+_MAIN_KEYS = frozenset(MAIN_VARS)
+_MISSING = object()
+
+
+def _shared_ns():
+    global _SHARED_NS
+    if _SHARED_NS is None:
+        _SHARED_NS = dict(MAIN_VARS)
+    return _SHARED_NS
 
 
 def run_program(text: str, inputs=(), budget: int = 2_000_000, wall: float = 20.0,
